@@ -97,6 +97,11 @@ Verdict(c) ==
       e2e   |-> e2eTags, e2efl |-> SortedSeq(e2e.fl),
       kf1   |-> kfAny,
       idv   |-> IdentityVerdict(sf[1], Strip(c.norm)),
+      \* per-step identity (events the harness marks with stepid): every recorded rewrite step whose two sides lie in the
+      \* rational-function fragment is compared on the 9^k identity grid, so a step that is unsound only away from the
+      \* soundness grid, or two unsound steps that compensate each other end to end, are still seen
+      stepidv |-> [j \in 1..(k-1) |-> IF c.stepid /\ sf[j] # sf[j+1] THEN IdentityVerdict(sf[j], sf[j+1]) ELSE "off"],
+      nfidv |-> IF c.stepid THEN IdentityVerdict(sf[k], Strip(c.nf)) ELSE "off",
       truthful |-> \A j \in {1, k} \cup {g \in 1..k : g % 8 = 0} : TruthfulFlags(fs[j])]
 
 Init == blk \in 1..NBLK /\ i = 0
